@@ -1,2 +1,3 @@
 import SfProps.C20
 import SfProps.C02
+import SfProps.C13
